@@ -580,14 +580,24 @@ where
 {
     let shape = T::shape();
     let sfp = fp(name.as_bytes());
-    let rounds = t.cfg.scale(1, 12, 120);
+    let replay_one = REPLAY_CONCRETE.with(|r| r.borrow().clone());
+    if let Some((rname, _)) = &replay_one {
+        if rname.replace(' ', "") != name.replace(' ', "") {
+            return;
+        }
+    }
+    let rounds = if replay_one.is_some() { 1 } else { t.cfg.scale(1, 12, 120) };
     for _ in 0..rounds {
         let val = {
             let mut g = ValGen::small(&mut t.rng);
             g.gen(&shape)
         };
         let valid = spec::encode(&val);
-        for (class, input) in hostile_inputs(&mut t.rng, &shape, &valid, false) {
+        let inputs = match &replay_one {
+            Some((_, one)) => vec![("replay", one.clone())],
+            None => hostile_inputs(&mut t.rng, &shape, &valid, false),
+        };
+        for (class, input) in inputs {
             t.st.eval();
             t.st.count("corpus_inputs");
             t.st.count(&format!("input_{}", class));
@@ -667,11 +677,103 @@ where
 
 // ------------------------------------------------------------------ C03 driver
 
+/// Lean interpreter workload for C03 (used for the 32-bit target, where `varint(usize)` length prefixes are
+/// bounded by 32 bits / 5 bytes): composite shapes with length-prefixed kinds, inputs = valid encodings, their
+/// prefixes, a few substitutions, and length prefixes around 2^32 and over-long paddings.
+fn lean_c03(t: &mut Tctx) {
+    let mut n = 0u64;
+    let limit = t.cfg.knob_u64("lean_shapes", 300);
+    while !t.cfg.expired() && n < limit {
+        n += 1;
+        let shape = match n % 6 {
+            0 => Shape::Str,
+            1 => Shape::Bytes,
+            2 => Shape::Seq(Box::new(Shape::U16)),
+            3 => Shape::Map(Box::new(Shape::U8), Box::new(Shape::Str)),
+            4 => Shape::Struct("T0", vec![("f0", Shape::Usize), ("f1", Shape::Isize), ("f2", Shape::Str), ("f3", Shape::Option(Box::new(Shape::Bytes)))]),
+            _ => {
+                let d = t.rng.range(0, 2) as u32;
+                gen_shape(&mut t.rng, d, &ShapeOpts::small())
+            }
+        };
+        if shape.has_zero_width_collection() {
+            continue;
+        }
+        let text = shape.text();
+        let sfp = fp(text.as_bytes());
+        let val = {
+            let mut g = ValGen::small(&mut t.rng);
+            g.max_len = 3;
+            g.max_str = 8;
+            g.gen(&shape)
+        };
+        let valid = spec::encode(&val);
+        if valid.len() > 64 {
+            continue;
+        }
+        t.st.count("lean_shapes");
+        c03_compare(t, &shape, &text, sfp, "valid", &valid);
+        for k in 0..valid.len() {
+            if k % 2 == (n % 2) as usize {
+                c03_compare(t, &shape, &text, sfp, "prefix", &valid[..k]);
+            }
+        }
+        for _ in 0..3 {
+            if valid.is_empty() {
+                break;
+            }
+            let o = t.rng.below(valid.len() as u64) as usize;
+            let mut m = valid.clone();
+            m[o] = *t.rng.pick(&[0x00u8, 0x01, 0x7F, 0x80, 0xFF]);
+            c03_compare(t, &shape, &text, sfp, "substituted", &m);
+        }
+        // length prefixes at the edge of 32 bits and over-long paddings of small lengths, in front of the valid body
+        let body: Vec<u8> = valid.iter().skip(1).cloned().collect();
+        for pre in [
+            vec![0xFF, 0xFF, 0xFF, 0xFF, 0x0F],             // 2^32 - 1
+            vec![0x80, 0x80, 0x80, 0x80, 0x10],             // 2^32
+            vec![0xFF, 0xFF, 0xFF, 0xFF, 0x1F],             // over the 32-bit range in 5 bytes
+            vec![0x81, 0x80, 0x80, 0x80, 0x00],             // 1, padded to 5 bytes
+            vec![0x81, 0x80, 0x80, 0x80, 0x80, 0x00],       // 1, padded to 6 bytes
+            vec![0x80, 0x80, 0x80, 0x80, 0x80, 0x80, 0x80, 0x80, 0x80, 0x01], // 2^63
+            vec![0xFF, 0xFF, 0xFF, 0xFF, 0xFF, 0xFF, 0xFF, 0xFF, 0xFF, 0x01], // 2^64 - 1
+        ] {
+            let mut m = pre.clone();
+            m.extend_from_slice(&body);
+            c03_compare(t, &shape, &text, sfp, "edge_length_prefix", &m);
+        }
+    }
+}
+
+fn c03_corpus_all(t: &mut Tctx, all_on_this_thread: bool) {
+    let mut i = 0u64;
+    macro_rules! one {
+        ($ty:ty) => {
+            i += 1;
+            if all_on_this_thread || t.mine(i) || t.cfg.tier == Tier::Thorough {
+                let t0 = std::time::Instant::now();
+                c03_corpus::<$ty>(t, stringify!($ty));
+                t.st.count("corpus_types_run");
+                if t.cfg.knobs.contains_key("timing") && t0.elapsed().as_secs_f64() > 0.5 {
+                    eprintln!("[c03 corpus] {} {:.2}s", stringify!($ty), t0.elapsed().as_secs_f64());
+                }
+            }
+        };
+    }
+    crate::for_each_corpus_type!(one);
+}
+
 pub fn run_c03(cfg: &Cfg) -> Report {
     let mut rep = Report::new("C03");
     if let Some(p) = &cfg.replay {
         rep.stats = replay(cfg, "C03", p);
         rep.rule = "replay".into();
+        return rep;
+    }
+    if cfg.tier == Tier::Tiny && cfg.knob_u64("lean", 0) == 1 {
+        let s = parallel(cfg, 1, |t| lean_c03(t));
+        rep.stats.merge(s);
+        rep.rule = "lean interpreter workload: length-prefixed shapes, valid / prefix / substituted inputs and length prefixes at the edge of the pointer width, each compared with the reference decoder".into();
         return rep;
     }
     let s = parallel(cfg, 1, |t| {
@@ -775,23 +877,7 @@ pub fn run_c03(cfg: &Cfg) -> Report {
         }
     });
     rep.stats.merge(s);
-    let s = parallel(cfg, 4, |t| {
-        let mut i = 0u64;
-        macro_rules! one {
-            ($ty:ty) => {
-                i += 1;
-                if t.mine(i) || t.cfg.tier == Tier::Thorough {
-                    let t0 = std::time::Instant::now();
-                    c03_corpus::<$ty>(t, stringify!($ty));
-                    t.st.count("corpus_types_run");
-                    if t.cfg.knobs.contains_key("timing") && t0.elapsed().as_secs_f64() > 0.5 {
-                        eprintln!("[c03 corpus] {} {:.2}s", stringify!($ty), t0.elapsed().as_secs_f64());
-                    }
-                }
-            };
-        }
-        crate::for_each_corpus_type!(one);
-    });
+    let s = parallel(cfg, 4, |t| c03_corpus_all(t, false));
     rep.stats.merge(s);
     rep.rule = "cases = (target shape or concrete type, input byte string): every byte string up to 3 (quick) / 4 (thorough) bytes for the u16/i16 \
                 decoders, every string up to 2 bytes for 13 small shapes, boundary-structured and random strings for 32/64/128-bit and pointer-sized \
@@ -1132,8 +1218,6 @@ impl std::io::Read for PatternReader {
 /// sequences against a model: scratch slots are disjoint, in order and inside the scratch buffer whatever was
 /// refused before; a refused request changes nothing; the slice cursor never leaves the input.
 fn c04_flavor_histories(t: &mut Tctx) {
-    use postcard::de_flavors::io::io::IOReader;
-    use postcard::de_flavors::{Flavor, Slice};
     let mut gb = GuardBuf::new(2);
     let n = t.cfg.scale(12, 4000, 80_000);
     for it in 0..n {
@@ -1159,6 +1243,38 @@ fn c04_flavor_histories(t: &mut Tctx) {
             };
             plan.push((pop, ct));
         }
+        flavor_history_one(t, &mut gb, cap, at_tail, 1 + (it as usize % 5), &plan);
+    }
+    // ---- one Deserializer, several values: a refused string must not disturb the next one
+    let n = t.cfg.scale(6, 1500, 30_000);
+    for it in 0..n {
+        if t.cfg.expired() {
+            break;
+        }
+        let cap = t.rng.range(1, 16);
+        let claimed = *t.rng.pick(&[usize::MAX, usize::MAX - 7, cap + 1, cap + 300, (isize::MAX as usize) + 1, 1 << (usize::BITS - 8)]);
+        let good_len = t.rng.range(0, cap);
+        deserializer_reuse_one(t, &mut gb, cap, claimed, good_len, it % 2 == 0);
+    }
+}
+
+/// Plan syntax of the replay files: `pop` / `take(N)` separated by blanks.
+fn parse_flavor_plan(text: &str) -> Vec<(bool, usize)> {
+    text.split_whitespace()
+        .filter_map(|tok| {
+            if tok == "pop" {
+                Some((true, 0))
+            } else {
+                tok.strip_prefix("take(").and_then(|r| r.strip_suffix(')')).and_then(|x| x.parse().ok()).map(|n| (false, n))
+            }
+        })
+        .collect()
+}
+
+fn flavor_history_one(t: &mut Tctx, gb: &mut GuardBuf, cap: usize, at_tail: bool, step: usize, plan: &[(bool, usize)]) {
+    use postcard::de_flavors::io::io::IOReader;
+    use postcard::de_flavors::{Flavor, Slice};
+    {
         let plan_text = plan.iter().map(|(p, c)| if *p { "pop".to_string() } else { format!("take({})", c) }).collect::<Vec<_>>().join(" ");
         t.st.eval();
         t.st.nontrivial(fp_mix(fp(plan_text.as_bytes()), cap as u64 ^ ((at_tail as u64) << 32)));
@@ -1167,7 +1283,7 @@ fn c04_flavor_histories(t: &mut Tctx) {
         let scratch: &mut [u8] = if at_tail { gb.tail(cap) } else { gb.head(cap) };
         let base = scratch.as_ptr() as usize;
         let r = catch(|| -> Result<(), String> {
-            let mut fl = IOReader::new(PatternReader { pos: 0, step: 1 + (it as usize % 5) }, scratch);
+            let mut fl = IOReader::new(PatternReader { pos: 0, step }, scratch);
             let mut used = 0usize;
             let mut rpos = 0usize;
             for (k, (pop, ct)) in plan.iter().enumerate() {
@@ -1219,7 +1335,7 @@ fn c04_flavor_histories(t: &mut Tctx) {
             Err(p) => t.st.violation("C04:panic", format!("IOReader over a {}-byte scratch, plan [{}]: panicked: {}", cap, plan_text, p), vec![kv("kind", "flavor-history"), kv("flavor", "IOReader"), kv("scratch", cap.to_string()), kv("plan", plan_text.clone())]),
         }
         // ---- slice flavour over a guarded input
-        t.crumb.set(&format!("kind: flavor-history\nflavor: Slice\ninput: {}\nplan: {}", cap, plan_text));
+        t.crumb.set(&format!("kind: flavor-history\nflavor: Slice\nscratch: {}\nplan: {}", cap, plan_text));
         let data: Vec<u8> = (0..cap).map(PatternReader::byte).collect();
         let input: &[u8] = gb.place(&data, at_tail);
         let ibase = input.as_ptr() as usize;
@@ -1265,15 +1381,11 @@ fn c04_flavor_histories(t: &mut Tctx) {
         }
         t.crumb.clear();
     }
-    // ---- one Deserializer, several values: a refused string must not disturb the next one
-    let n = t.cfg.scale(6, 1500, 30_000);
-    for it in 0..n {
-        if t.cfg.expired() {
-            break;
-        }
-        let cap = t.rng.range(1, 16);
-        let claimed = *t.rng.pick(&[usize::MAX, usize::MAX - 7, cap + 1, cap + 300, (isize::MAX as usize) + 1, 1 << (usize::BITS - 8)]);
-        let good_len = t.rng.range(0, cap);
+}
+
+fn deserializer_reuse_one(t: &mut Tctx, gb: &mut GuardBuf, cap: usize, claimed: usize, good_len: usize, at_tail: bool) {
+    use postcard::de_flavors::io::io::IOReader;
+    {
         t.st.eval();
         t.crumb.set(&format!("kind: deserializer-reuse\nscratch: {}\nclaimed: {}\ngood_len: {}", cap, claimed, good_len));
         let mut stream = varint_bytes(claimed as u128);
@@ -1281,7 +1393,7 @@ fn c04_flavor_histories(t: &mut Tctx) {
         stream.extend_from_slice(&varint_bytes(good_len as u128));
         stream.extend_from_slice(&good);
         stream.push(0x2A);
-        let scratch: &mut [u8] = if it % 2 == 0 { gb.tail(cap) } else { gb.head(cap) };
+        let scratch: &mut [u8] = if at_tail { gb.tail(cap) } else { gb.head(cap) };
         let base = scratch.as_ptr() as usize;
         let r = catch(|| -> Result<(), String> {
             let mut de = postcard::Deserializer::from_flavor(IOReader::new(&stream[..], scratch));
@@ -1702,11 +1814,31 @@ fn replay(cfg: &Cfg, which: &str, p: &std::path::Path) -> Stats {
                 let judge = !shape.has_map() && !shape.has_zero_width_collection();
                 c04_dyn_case(t, &mut gb, &shape, &text, 0, "replay", &input, judge);
             }
+        } else if kind == "corpus" && which == "C03" {
+            let name = m.get("type").cloned().unwrap_or_default();
+            REPLAY_CONCRETE.with(|r| *r.borrow_mut() = Some((name, input.clone())));
+            c03_corpus_all(t, true);
+            REPLAY_CONCRETE.with(|r| *r.borrow_mut() = None);
         } else if kind == "concrete" && which == "C04" {
             let name = m.get("type").cloned().unwrap_or_default();
             REPLAY_CONCRETE.with(|r| *r.borrow_mut() = Some((name, input.clone())));
             c04_concrete_all(t, true);
             REPLAY_CONCRETE.with(|r| *r.borrow_mut() = None);
+        } else if kind == "flavor-history" && which == "C04" {
+            let cap: usize = m.get("scratch").or(m.get("input")).and_then(|s| s.parse().ok()).unwrap_or(0);
+            let plan = parse_flavor_plan(m.get("plan").map(|s| s.as_str()).unwrap_or(""));
+            let mut gb = GuardBuf::new(2);
+            for at_tail in [true, false] {
+                for step in [1usize, 3] {
+                    flavor_history_one(t, &mut gb, cap, at_tail, step, &plan);
+                }
+            }
+        } else if kind == "deserializer-reuse" && which == "C04" {
+            let g = |k: &str| m.get(k).and_then(|s| s.parse::<usize>().ok()).unwrap_or(1);
+            let mut gb = GuardBuf::new(2);
+            for at_tail in [true, false] {
+                deserializer_reuse_one(t, &mut gb, g("scratch"), g("claimed"), g("good_len"), at_tail);
+            }
         } else if kind == "unservable" && which == "C04" {
             REPLAY_UNSERVABLE.with(|r| *r.borrow_mut() = Some(input.clone()));
             c04_unservable(t);
